@@ -9,7 +9,7 @@ Annotation classes (tok.ann):
   ghost      `proof { .. }` block or `let ghost ..;` statement    anchor: previous token
   iter       `it :` naming the ghost iterator of a for loop       anchor: previous token (`in`)
 """
-import difflib
+import difflib, re
 from .rstok import Tok, match_close, seq_at, OPEN, CLOSE
 from .items import first_brace_depth0, _skip_attrs
 
@@ -297,14 +297,31 @@ def _pure_rename(S, C):
             prev = S[i - 1].text if i > 0 else ""
             nxt = S[i + 1].text if i + 1 < len(S) else ""
             if prev in (".", "::") or nxt == "::": return None
+    # every renamed name must be bound LOCALLY in this item: a parameter (`name: T` in the signature), `let [mut] name`,
+    # a simple tuple pattern after `let` / `for`, or `for name in`. A constant, a field or a callee that is merely *replaced by
+    # another one* in the source is a semantic change, not a renaming (a swapped constant once verified against a contract that
+    # had been rewritten along with it).
+    for o in m:
+        if re.match(r"^[A-Z][A-Z0-9_]*$", o) or re.match(r"^[A-Z][A-Z0-9_]*$", m[o]): return None
+    body = first_brace_depth0(S, 0)
+    if body is None or body < 0: body = len(S)
     bound = set()
     for i, a in enumerate(S):
-        if a.kind == "ident" and a.text in m:
-            prev = S[i - 1].text if i > 0 else ""
-            prev2 = S[i - 2].text if i > 1 else ""
-            nxt = S[i + 1].text if i + 1 < len(S) else ""
-            if prev in ("let", "for", "|", "(", ",") or (prev == "mut" and prev2 in ("let", "(", ",", "|")) or (prev == "&" and prev2 in ("(", ",", "|")) or nxt == ":":
-                bound.add(a.text)
+        if not (a.kind == "ident" and a.text in m): continue
+        prev = S[i - 1].text if i > 0 else ""
+        prev2 = S[i - 2].text if i > 1 else ""
+        nxt = S[i + 1].text if i + 1 < len(S) else ""
+        if i < body:
+            if nxt == ":" and prev in ("(", ",", "mut"): bound.add(a.text)
+        else:
+            if prev in ("let", "for") or (prev == "mut" and prev2 == "let"): bound.add(a.text)
+            elif prev in ("(", ",") or (prev == "mut" and prev2 in ("(", ",")):
+                # inside a tuple pattern directly after `let` / `for`:  let (a, mut b) = ..   for (i, x) in ..
+                k = i
+                while k > 0 and S[k].text != "(": k -= 1
+                if k > 0 and S[k - 1].text in ("let", "for"):
+                    close = match_close(S, k)
+                    if close is not None and close > i and S[close + 1].text in ("=", "in", ":"): bound.add(a.text)
     if bound != set(m): return None
     return m
 
